@@ -49,7 +49,7 @@ package streams
 //@ func (*Stream).executeFlow
 //@   prop C04, C05
 //@   results sc, err
-//@   requires s != nil && s.apiStreams != nil && s.metricsData != nil && actions != nil && actions.Request != nil && actions.Response != nil && xlen >= 0
+//@   requires s != nil && s.apiStreams != nil && s.metricsData != nil && listsFit(apiStream, actions) && xlen >= 0
 //@   requires flowOK(flow) && nodeArgOK(startFromNode) && graphOK() && rankedOK()
 //@   modifies now, xn, xo, xp, xlen, xpar, drops, fl, flen, actions.Request.Actions, actions.Response.Actions, allof(flowMetricsData.totalFlowExecutionTimeNs), allof(flowMetricsData.totalFlowExecutions), allof(flowMetricsData.requestsThroughFlowsCounter), allof(flowMetricsData.avgFlowExecutionTime)
 //@   allocates ProcessorIO
@@ -78,7 +78,7 @@ package streams
 //@ func (*Stream).executeRes
 //@   prop C04, C05
 //@   opaque follows
-//@   requires s != nil && s.apiStreams != nil && s.metricsData != nil && rmOK(s.resources) && actions != nil && actions.Request != nil && actions.Response != nil && xlen >= 0 && flen >= 0
+//@   requires s != nil && s.apiStreams != nil && s.metricsData != nil && rmOK(s.resources) && listsFit(apiStream, actions) && xlen >= 0 && flen >= 0
 //@   requires resultOK(flowsToExecute) && graphOK() && rankedOK()
 //@   requires shortCircuit != nil ==> nodeArgOK(shortCircuit.node) && !ifacenil(shortCircuit.flow) && flowOK(shortCircuit.flow)
 //@   modifies now, xn, xo, xp, xlen, xpar, drops, fl, flen, actions.Request.Actions, actions.Response.Actions, allof(flowMetricsData.totalFlowExecutionTimeNs), allof(flowMetricsData.totalFlowExecutions), allof(flowMetricsData.requestsThroughFlowsCounter), allof(flowMetricsData.avgFlowExecutionTime), smapof(regCtx(s.resources).ctx)
@@ -124,7 +124,7 @@ package streams
 //@   prop C04, C05
 //@   opaque follows
 //@   ghostlocal nuser int
-//@   requires s != nil && s.apiStreams != nil && s.metricsData != nil && rmOK(s.resources) && !ifacenil(s.filterTree) && actions != nil && actions.Request != nil && actions.Response != nil && xlen >= 0 && flen >= 0
+//@   requires s != nil && s.apiStreams != nil && s.metricsData != nil && rmOK(s.resources) && !ifacenil(s.filterTree) && listsFit(apiStream, actions) && xlen >= 0 && flen >= 0
 //@   requires resultOK(flowsToExecute) && graphOK() && rankedOK()
 //@   modifies now, xn, xo, xp, xlen, xpar, drops, fl, flen, actions.Request.Actions, actions.Response.Actions, allof(flowMetricsData.totalFlowExecutionTimeNs), allof(flowMetricsData.totalFlowExecutions), allof(flowMetricsData.requestsThroughFlowsCounter), allof(flowMetricsData.avgFlowExecutionTime), smapof(regCtx(s.resources).ctx)
 //@   allocates ProcessorIO, FilterResult, shortCircuitOperation
@@ -151,7 +151,7 @@ package streams
 //@ func (*Stream).ExecuteFlow
 //@   prop C04, C03, C05
 //@   opaque follows
-//@   requires s != nil && s.metricsData != nil && s.metricsData.procMetricsData != nil && rmOK(s.resources) && !ifacenil(s.filterTree) && actions != nil && actions.Request != nil && actions.Response != nil && xlen >= 0 && flen >= 0
+//@   requires s != nil && s.metricsData != nil && s.metricsData.procMetricsData != nil && rmOK(s.resources) && !ifacenil(s.filterTree) && listsFit(apiStream, actions) && xlen >= 0 && flen >= 0
 //@   requires graphOK() && rankedOK()
 //@   modifies s.apiStreams, now, xn, xo, xp, xlen, xpar, drops, fl, flen, actions.Request.Actions, actions.Response.Actions, allof(flowMetricsData.totalFlowExecutionTimeNs), allof(flowMetricsData.totalFlowExecutions), allof(flowMetricsData.requestsThroughFlowsCounter), allof(flowMetricsData.avgFlowExecutionTime), smapof(regCtx(s.resources).ctx)
 //@   allocates ProcessorIO, FilterResult, shortCircuitOperation, Stream, RequestStream, ResponseStream
